@@ -84,34 +84,41 @@ def cmd_confirm(sid):
 
 
 def cmd_detect(sid, checks):
+    """run the quick checks against the change, applied in a scratch worktree (VERIF_REPO), never in /repo"""
     d = os.path.join(SEEDED, sid)
     meta = json.load(open(os.path.join(d, 'meta.json')))
     checks = checks or [meta['property']]
-    rc, out = sh('git -C /repo status --porcelain')
-    if out.strip():
-        raise SystemExit('/repo is not clean: ' + out)
-    rc, out = sh('git -C /repo apply %s' % os.path.join(d, 'patch.diff'))
+    wt = tempfile.mkdtemp(prefix='seeddet_')
+    os.rmdir(wt)
+    rc, out = sh('git -C /repo worktree add -q --detach %s HEAD' % wt)
     if rc:
-        raise SystemExit('patch does not apply to /repo: ' + out)
+        raise SystemExit(out)
     results = {}
+    evid = tempfile.mkdtemp(prefix='seedevid_')
     try:
+        rc, out = sh('git -C %s apply %s' % (wt, os.path.join(d, 'patch.diff')))
+        if rc:
+            raise SystemExit('patch does not apply: ' + out)
         for c in checks:
             t = time.time()
-            rc, out = sh('./check %s --tier quick' % c, cwd=VERIF, timeout=3600)
+            ev = os.path.join(VERIF, 'evidence', c + '.json')
+            keep = os.path.join(evid, c + '.json')
+            if os.path.exists(ev):
+                shutil.copy(ev, keep)
+            rc, out = sh('./check %s --tier quick' % c, cwd=VERIF, env={'VERIF_REPO': wt}, timeout=3600)
+            if os.path.exists(keep):
+                shutil.copy(keep, ev)       # evidence files must come from runs against /repo itself
             viol = [ln for ln in out.splitlines() if ln.startswith('VIOLATION')]
             sigs = [ln.strip() for ln in out.splitlines() if ln.strip().startswith('signature:')]
             results[c] = {'exit': rc, 'violations': len(viol), 'signatures': sigs[:4], 'wall_s': round(time.time() - t, 1)}
             print(sid, c, 'exit', rc, len(viol), 'violation lines', sigs[:2])
     finally:
-        sh('git -C /repo checkout -- .')
-        rc, out = sh('git -C /repo status --porcelain')
-        if out.strip():
-            print('WARNING /repo not clean after undo:', out)
+        sh('git -C /repo worktree remove --force %s' % wt)
+        shutil.rmtree(wt, ignore_errors=True)
+        shutil.rmtree(evid, ignore_errors=True)
     meta.setdefault('detection', {}).update(results)
     meta['detected_by'] = sorted(c for c, r in meta['detection'].items() if r['exit'] == 1)
     json.dump(meta, open(os.path.join(d, 'meta.json'), 'w'), indent=1)
-    # the evidence files were rewritten by runs against a changed tree: restore the committed ones
-    sh('git -C %s checkout -- evidence' % VERIF)
     return results
 
 
